@@ -21,7 +21,7 @@ pub struct InputEvent {
 impl InputEvent {
     pub fn text_string(&self) -> Option<String> {
         match &self.event {
-            Event::Text(t) => Some(String::from_utf8(t.to_vec()).expect("utf8")),
+            Event::Text(t) => Some(unescape_text(t)),
             _ => None,
         }
     }
@@ -31,6 +31,16 @@ impl InputEvent {
             Event::CData(c) => Some(String::from_utf8(c.to_vec()).expect("utf8")),
             _ => None,
         }
+    }
+}
+
+/// Text content is held unescaped internally (as attribute values are), and
+/// escaped once when written. Content which can't be unescaped (e.g. an
+/// undeclared entity) is kept as-is.
+fn unescape_text(t: &BytesText) -> String {
+    match t.unescape() {
+        Ok(text) => text.into_owned(),
+        Err(_) => String::from_utf8_lossy(t).into_owned(),
     }
 }
 
@@ -285,7 +295,7 @@ pub fn tagify_events(events: InputList) -> Result<Vec<Tag>> {
                 tags.push(Tag::Comment(text, None));
             }
             Event::Text(t) => {
-                let text = String::from_utf8(t.to_vec())?;
+                let text = unescape_text(t);
                 if let Some(t) = tags.last_mut() {
                     t.set_text(text)
                 } else {
@@ -342,9 +352,7 @@ impl From<InputEvent> for OutputEvent {
                     String::from_utf8(e.name().into_inner().to_vec()).expect("utf8");
                 OutputEvent::End(elem_name)
             }
-            Event::Text(t) => {
-                OutputEvent::Text(String::from_utf8(t.into_inner().to_vec()).expect("utf8"))
-            }
+            Event::Text(t) => OutputEvent::Text(unescape_text(&t)),
             Event::CData(c) => {
                 OutputEvent::CData(String::from_utf8(c.into_inner().to_vec()).expect("utf8"))
             }
